@@ -70,7 +70,24 @@ def judge(case, r):
     if r.rc != 0:
         if any(d[0] == "pp_unbalanced_if_action" for d in case["devs"]) or case["base_settings"].get("pp_unbalanced_if_action") == "2":
             return []      # documented: 2 = treat unbalanced #if bodies as an error
-        return [{"clause": "valid-program-refused", "exit": r.rc, "lang": lang, "ctx": case["meta"].get("ctx", "")}]
+        w = {"clause": "valid-program-refused", "exit": r.rc, "lang": lang, "ctx": case["meta"].get("ctx", "")}
+        # why: the diagnostic of a non-quiet rerun, reduced to its kind; and the line width in force when it is a tiny one
+        # (the identity of a finding must not depend on which unrelated option was deviated alongside)
+        r2 = run.unc(case["src"], case["cfg"] or None, lang, quiet=False)
+        msg = r2.err.decode("latin-1", "replace")
+        for pat, name in (("does not converge", "line-splitting-does-not-converge"), ("pp level is ZERO", "pp-level-zero-in-check"),
+                          ("Unmatched", "unmatched-brace-or-paren"), ("not converge", "does-not-converge")):
+            if pat in msg:
+                w["cause"] = name
+                break
+        else:
+            w["cause"] = "other"
+            w["_stderr"] = msg[-300:]
+        st = dict(case["base_settings"]); st.update(dict(case["devs"]))
+        cw = st.get("code_width")
+        if cw is not None and str(cw).isdigit() and 0 < int(cw) <= 16:
+            w["code_width"] = str(cw)
+        return [w]
     v = verdict(case["src"], r.out, lang, case["meta"].get("always_compile", False))
     if v is None:
         return []
